@@ -92,6 +92,11 @@ def supsOK (t : T) : Bool := t.splits.all fun s => s.e.sup == NIL || decide (0 â
     literal-equality theorems; fails only for names containing ", ") -/
 def keysOK (t : T) : Bool := decide ((t.usplitsAll.map fun s => toString s.side).Nodup)
 
+/-- no two branches of the unrooted tree carry the same split (true when no node has exactly two
+    neighbours; hypothesis of the link between `outgroup_clade` and the oracle `cladeOK`) -/
+def branchesDistinct (t : T) : Bool :=
+  decide (((unroot t).splits.map fun s => canonSide (unroot t).tipNames s.below).Nodup)
+
 def allLens (t : T) : Bool := t.edges.all fun e => e.len â‰¥ 0
 
 end Gotree.C05
